@@ -17,6 +17,9 @@ Driver family `db` (C12).  Stateful case lines; every line of a case carries the
 * `rbatch <cid> ec=<int> addr=<hex of string> tc=<int> seqs=<..> res=ok|<tag> [out=<seq:hex;..|->]` — `GetNonGovernanceVAABatch`.
 * `rgov <cid> seqs=<..> res=ok|<tag> [out=<tc:seq:hex;..|->]` — `PublicrpcServer.GetGovernanceVAABatch`.
 * `fmm <cid> ec=<n> addr=<hex of string> tc=<n> res=ok|<tag> [out=<msgid,..|-> first=<n> last=<n>]` — `FindMissingMessages`.
+* `bfill <cid> ec= addr= tc= script=<seq:s:<hex|->|seq:a|seq:f,..|-> res=ok|<tag> [out= first= last=] fwd=<hex|->;..|none stray=<n>` —
+  `FindMissingMessages` with `RpcBackfill`: `script` = what the fake nodes answer per sequence (served bytes / absent / failed; anything
+  not listed is absent), `fwd` = what arrived on the processor's inbound channel, `stray` = requests for anything but a scripted path.
 
 tags: `noid badhex badlen batchsize notfound internal` (gRPC code + message, see `Whv.Db.RpcErr`), anything else is reported as is.
 
@@ -80,6 +83,7 @@ def shortId (i : VaaId) : String := s!"{i.emitterChain}/{toHex (i.emitter.take 4
 def shortStream (s : Stream) : String := s!"{s.ec}/{toHex (s.addr.take 4)}../{s.tc}"
 
 structure St where
+  afterBfill : Bool := false                -- the previous line was a `bfill`: the plain report that follows must be what it was before
   store : Store := []
   hist : List Put := []          -- implementation's successful stores, chronological
   outOfDomain : Bool := false    -- a `raw` line was seen in this case
@@ -115,7 +119,7 @@ def judgeGet (pre : String) (cid : String) (h : List Put) (id : VaaId) (res : St
   | "notfound", _, none => none
   | r, _, _ => some s!"spec {cid} {pre}get-error lookup of {shortId id} ended with {r}"
 
-def step (st : St) (line : String) : St × List String :=
+def stepLine (st : St) (line : String) : St × List String :=
   let fs := fields line
   match fs with
   | ["reset", _] => ({ st with store := [], hist := [], outOfDomain := false, govEc := 0, govAddr := [] }, [])
@@ -315,7 +319,9 @@ def step (st : St) (line : String) : St × List String :=
                 match specGap (streamSeqs st.hist s) with
                 | .ok wm wf wl =>
                   let wantIds := wm.map fun v => s!"{ec}/{toHex a}/{tc}/{v}"
-                  if wantIds ≠ out || wf ≠ f || wl ≠ l then
+                  if (wantIds ≠ out || wf ≠ f || wl ≠ l) && st.afterBfill then
+                    some s!"spec {cid} backfill-wrote-store after a backfill call the stream {shortStream s} reports missing={o.take 200} first={f} last={l}, but the history of successful stores gives missing={showNats wm} first={wf} last={wl}: the admin service must only forward, never write the store"
+                  else if wantIds ≠ out || wf ≠ f || wl ≠ l then
                     some s!"spec {cid} fmm-not-stream-exact stream {shortStream s} holds {showNats (streamSeqs st.hist s)}: expected missing={showNats wm} first={wf} last={wl}, got {out.length} ids first={f} last={l}: {o.take 300}"
                   else none
                 | .err => none
@@ -341,8 +347,58 @@ def step (st : St) (line : String) : St × List String :=
           else ({ st with nErrBranch := st.nErrBranch + 1 }, [s!"ok {cid}"])
         | .ok _ => (st, [s!"diff {cid} fmm: model ok impl {res}"])
     | _, _, _, _ => (st, [s!"diff {cid} unparsable fmm line"])
+  | "bfill" :: cid :: rest =>
+    match kvNat rest "ec", kvHex rest "addr", kvNat rest "tc", kv rest "res", kv rest "script", kv rest "fwd", kvNat rest "stray" with
+    | some ec, some addr, some tc, some res, some script, some fwdS, some stray =>
+      let st := { st with n := st.n + 1, nRpc := st.nRpc + 1 }
+      let entries : List (Nat × NodeAnswer) := (if script = "-" then [] else script.splitOn ",").filterMap fun e =>
+        match e.splitOn ":" with
+        | [sq, "s", h] => do pure (← sq.toNat?, NodeAnswer.served (← parseHexD h))
+        | [sq, "a"] => do pure (← sq.toNat?, NodeAnswer.absent)
+        | [sq, "f"] => do pure (← sq.toNat?, NodeAnswer.failed)
+        | _ => none
+      let answer : Nat → NodeAnswer := fun i => (entries.lookup i).getD .absent
+      let fwd : Option (List Bytes) := if fwdS = "none" then some [] else (fwdS.splitOn ";").mapM parseHexD
+      match fwd with
+      | none => (st, [s!"diff {cid} unparsable bfill fwd"])
+      | some fwd =>
+        let servedAll : List Bytes := entries.filterMap fun e => match e.2 with | .served b => some b | _ => none
+        if stray > 0 then
+          (st, [s!"spec {cid} backfill-stray-request {stray} request(s) to the backfill nodes for something that is not a missing message of the stream asked about"])
+        else if fwd.any (fun b => !servedAll.contains b) then
+          (st, [s!"spec {cid} backfill-forwarded-not-served the admin service forwarded bytes that no backfill node served"])
+        else
+          let addrC := bytesToChars addr
+          let m := findMissingBackfill st.store ec addrC tc answer
+          if m.forwarded ≠ fwd then
+            (st, [s!"diff {cid} bfill: model forwards {m.forwarded.length} VAAs, impl {fwd.length}: {fwdS.take 200}"])
+          else if res = "ok" then
+            match kv rest "out", kvNat rest "first", kvNat rest "last", m.result with
+            | some o, some f, some l, .ok r =>
+              let out : List String := if o = "-" then [] else o.splitOn ","
+              let hasFailed := entries.any fun e => e.2 == NodeAnswer.failed
+              let wantUnf := (entries.filter fun e => e.2 == NodeAnswer.absent).map fun e => e.1
+              let outSeqs := out.map fun (x : String) => (x.splitOn "/").getLast?.bind String.toNat?
+              if !hasFailed && outSeqs ≠ wantUnf.map some then
+                (st, [s!"spec {cid} backfill-report-wrong the nodes served nothing for sequences {showNats wantUnf} of the stream, the call reported {o.take 200} as still missing"])
+              else if r.missing.map String.ofList = out && r.first = f && r.last = l then (st, [s!"ok {cid}"])
+              else (st, [s!"diff {cid} bfill: model unfilled={r.missing.map String.ofList} first={r.first} last={r.last} impl {o.take 300} first={f} last={l}"])
+            | _, _, _, .error e => (st, [s!"diff {cid} bfill: model {errTag e} impl ok"])
+            | _, _, _, _ => (st, [s!"diff {cid} unparsable bfill result"])
+          else
+            match m.result with
+            | .error e =>
+              if errTag e ≠ res then (st, [s!"diff {cid} bfill: model {errTag e} impl {res}"])
+              else ({ st with nErrBranch := st.nErrBranch + 1 }, [s!"ok {cid}"])
+            | .ok _ => (st, [s!"diff {cid} bfill: model ok impl {res}"])
+    | _, _, _, _, _, _, _ => (st, [s!"diff {cid} unparsable bfill line"])
   | [] => (st, [])
   | _ => (st, [s!"diff ? unknown line: {line.take 80}"])
+
+/-- One line; remembers whether it was a `bfill` (the `fmm` line the harness issues right after it must find the store as it was). -/
+def step (st : St) (line : String) : St × List String :=
+  let (st', outs) := stepLine st line
+  ({ st' with afterBfill := (fields line).head? == some "bfill" }, outs)
 
 def fin (st : St) : List String :=
   [s!"stat cases {st.n}", s!"stat puts {st.nPut}", s!"stat overwrites {st.nOverwrite}", s!"stat get_hits {st.nGetHit}",
